@@ -83,6 +83,41 @@ Theorem C13_fr_move_capped : forall (W H t : Qc) (p d : vec) (n : Qc),
 Proof. exact move_capped. Qed.
 Print Assumptions C13_fr_move_capped.
 
+(* the two clamps of the move step are independent: each coordinate of the new position is
+   its own unclamped value brought into its own interval, whatever happened to the other
+   coordinate in the same step *)
+Theorem C13_fr_move_axes : forall (W H t : Qc) (p d : vec) (n : Qc), 0 <= W -> 0 <= H ->
+  let qx := fst p + fst d / n * Qcmin n t in
+  let qy := snd p + snd d / n * Qcmin n t in
+  let r := move W H t p d n in
+  (qx <= - (W * half) -> fst r = - (W * half)) /\ (W * half <= qx -> fst r = W * half) /\
+  (- (W * half) <= qx <= W * half -> fst r = qx) /\
+  (qy <= - (H * half) -> snd r = - (H * half)) /\ (H * half <= qy -> snd r = H * half) /\
+  (- (H * half) <= qy <= H * half -> snd r = qy).
+Proof. exact move_axes. Qed.
+Print Assumptions C13_fr_move_axes.
+
+(* leaving through a corner: a movable module that the LAST iteration (temperature tl, from
+   the positions pos reached after the k iterations before it) would carry past BOTH borders
+   of a corner in the same step comes back with its centre exactly on that corner of the die
+   - for any of the four corners, any force law, any number of earlier iterations *)
+Theorem C13_fr_last_step_corner : forall (A B : Type) (force : nat -> Qc -> list vec -> nat -> vec * Qc)
+    (W H : Qc) (k : nat) (nl : netlist A B) (v : nat) (m : module A) (p : vec) (east north : bool),
+  0 <= W -> 0 <= H ->
+  nth_error (modules nl) v = Some m -> is_fixed m = false ->
+  let fx := map is_fixed (modules nl) in
+  let tl := temp_at (t_init W H) (dt_of W H (S k)) k in
+  let pos := iterate force W H (dt_of W H (S k)) fx k 0 (t_init W H) (map (recentre W H) (modules nl)) in
+  let d := fst (force k tl pos v) in
+  let n := snd (force k tl pos v) in
+  nth_error pos v = Some p ->
+  (if east then W * half <= fst p + fst d / n * Qcmin n tl else fst p + fst d / n * Qcmin n tl <= - (W * half)) ->
+  (if north then H * half <= snd p + snd d / n * Qcmin n tl else snd p + snd d / n * Qcmin n tl <= - (H * half)) ->
+  nth_error (modules (fr_layout force W H (S k) nl)) v =
+  Some (mkMod (Some (if east then W else 0, if north then H else 0)) false (payload m)).
+Proof. exact @fr_last_step_corner. Qed.
+Print Assumptions C13_fr_last_step_corner.
+
 (* force_algorithm returns the layout of the FIRST spring constant of 0.4 .. 1.5
    attaining the minimal cost, for an arbitrary cost function and force law *)
 Theorem C13_fa_argmin : forall (A B : Type) (force : Qc -> nat -> Qc -> list vec -> nat -> vec * Qc)
